@@ -328,3 +328,46 @@ func GenFarLZMA2(r *prng.R, maxDist int64) (stream, content []byte, probes int) 
 	stream = append(stream, 0)
 	return stream, w.Out, probes
 }
+
+// GenFullChunk builds an LZMA2 stream whose first chunk (LZMA, dictionary reset, new
+// properties) has a compressed size of exactly target bytes - the format maximum is 65536, a
+// value real encoders reach rarely and this library's own writer never - followed by a small
+// uncompressed chunk, a small LZMA chunk and the end chunk.  The first chunk consists of random
+// literals (a little more than one output byte each), so its size grows in steps of one and
+// the target is hit exactly; ok is false when a step skipped it (the caller tries another seed).
+func GenFullChunk(r *prng.R, target int, dictSize int64) (stream, content []byte, ok bool) {
+	w := &Window{DictSize: dictSize}
+	p := Props{LC: r.Intn(4), LP: 0, PB: r.Intn(3)}
+	enc := &Encoder{M: NewModel(p), W: w}
+	enc.Restart()
+	for enc.Pending() < target {
+		if enc.Put(Op{Kind: OpLit, Byte: byte(r.U64())}) != nil {
+			return nil, nil, false
+		}
+	}
+	if enc.Pending() != target || len(w.Out) > MaxLZMA2Unc {
+		return nil, nil, false
+	}
+	unc := len(w.Out)
+	body := enc.Finish()
+	if len(body) != target {
+		return nil, nil, false
+	}
+	stream = append(stream, LZMA2ChunkHeader("LRND", unc, len(body), p)...)
+	stream = append(stream, body...)
+	raw := make([]byte, r.Range(1, 40))
+	r.Bytes(raw)
+	w.Out = append(w.Out, raw...)
+	stream = append(stream, LZMA2RawHeader(false, len(raw))...)
+	stream = append(stream, raw...)
+	enc.Restart()
+	start := len(w.Out)
+	for i := 0; i < 30; i++ {
+		enc.Put(Op{Kind: OpLit, Byte: byte('a' + r.Intn(26))})
+	}
+	body = enc.Finish()
+	stream = append(stream, LZMA2ChunkHeader("L", len(w.Out)-start, len(body), p)...)
+	stream = append(stream, body...)
+	stream = append(stream, 0)
+	return stream, w.Out, true
+}
